@@ -129,6 +129,20 @@ func parseContractComments(fset *token.FileSet, f *ast.File, pkgPath string) ([]
 			cur = nil
 			continue
 		}
+		if strings.HasPrefix(t, "symbolic ") {
+			// symbolic T1, T2: pointers to these named struct types are identity-only references
+			// (fields live in object heaps); parameters of such types are not bound to a private pointee
+			if err := flush(); err != nil {
+				return nil, err
+			}
+			nn := &Contract{PkgPath: pkgPath, Src: src, Key: "$symbolic"}
+			for _, f := range strings.FieldsFunc(t[9:], func(r rune) bool { return r == ',' || r == ' ' }) {
+				nn.ModText = append(nn.ModText, f)
+			}
+			out = append(out, nn)
+			cur = nil
+			continue
+		}
 		if strings.HasPrefix(t, "def ") {
 			if err := flush(); err != nil {
 				return nil, err
